@@ -150,6 +150,18 @@ CLAIMED = {
         note="Coq kernel; stdlib real axioms (Geom over R); h5py/cloudpickle fidelity measured, not modelled.",
         technique="Coq proofs for options/polygon normalisation + differential round trips on the real objects",
         design="7/C14"),
+    "C19": dict(
+        text="Coq theorems: if any pre-run check fails no output file, no temporary directory and no run event occur; each class "
+             "of inconsistent option (dt_init > dt_max, |terminal_psi| > 1, multiplier outside (0,1), drag outside (0,1], step "
+             "size <= 0, tolerance <= 0) is rejected and every consistent option set is accepted; balanced currents accepted, a "
+             "relative imbalance >= 1e-6 rejected; time-dependent currents unbalanced at all times rejected for every non-empty "
+             "sample, and a refutation for defects confined to unsampled times (recorded as a KNOWN FINDING). Oracle: every "
+             "enumerated class instantiated on several devices and magnitudes (gross .. 1e-6), with and without an explicit "
+             "output path: must raise ValueError/TypeError and leave the output directory and a private TMPDIR unchanged; "
+             "well-posed stream accepted. Correspondence: SolverOptions.validate and the balance test vs Model.Validate (exact Q).",
+        note="Coq kernel; no axioms (Q); GPU/solver-name checks exercised by the oracle only; sampling defect is a known finding.",
+        technique="Coq proofs over Q + exact-rational correspondence + rejection/no-residue oracle",
+        design="7/C19"),
 }
 
 PENDING_REASON = "check not built yet in this session (planned, see DESIGN.md section 7); not claimed until it runs"
